@@ -139,7 +139,7 @@ def make_blocks(tier, seed):
         if (not trivial or tier == "thorough") and not light:
             add("1d-small", 2, False, 3, "unit", split=True)
         # ordered frames, two frames, several time variants
-        for tv in (("half-offset", "neg-int") if tier != "thorough" else tuple(TIMES)):
+        for tv in ((("half-offset",) if light else ("half-offset", "neg-int")) if tier != "thorough" else tuple(TIMES)):
             add("1d", 2, True, 2, tv, split=tier == "thorough")
         # single-droplet frames, longer histories
         if not light:
@@ -149,7 +149,7 @@ def make_blocks(tier, seed):
             # three droplets per frame (competition between candidates), two frames
             add("1d-small", 3, False, 2, "nonuniform", split=True, min_len=2)
         # motion: frame 1 = up to 3 lattice droplets, frame 2 = up to 2 (thorough: 3) droplets on the lattice displaced by 0/0.3/-0.9/1.4
-        for i0 in range(56):
+        for i0 in range(21 if light else 56):  # light: first frames of <= 2 droplets
             out.append({"alph": "1d-motion", "phase": ph, "cfg": cfg, "maxn": 3 if tier == "thorough" else 2, "ordered": False, "depth": 2, "times": "half-offset", "motion": True, "first": i0})
         # exactly representable lattices: touching droplets (surface distance exactly 0) do not overlap
         add("1d-dyadic", 2, False, 2, "unit", split=True)
